@@ -25,6 +25,11 @@ func (fr *frame) exec(ins ssa.Instruction) {
 	case *ssa.UnOp:
 		fr.env[ins] = fr.unop(ins)
 	case *ssa.Call:
+		if callee := ins.Call.StaticCallee(); callee != nil && ins.Call.Method == nil && onlyLogged(ins, callee) {
+			// a string that flows only into logging calls is not computed (avoids forking on its digits)
+			fr.env[ins] = ex.strConst("?")
+			return
+		}
 		fr.env[ins] = fr.callInstr(ins.Common(), ins.Pos())
 	case *ssa.ChangeInterface:
 		fr.env[ins] = fr.get(ins.X)
@@ -899,3 +904,65 @@ func (fr *frame) builtin(b *ssa.Builtin, c *ssa.CallCommon, args []Value, site s
 }
 
 var _ = smt.Unsat
+
+// onlyLogged: the call is a pure string formatter whose result is used only as an argument of logging calls.
+func onlyLogged(call *ssa.Call, callee *ssa.Function) bool {
+	switch callee.String() {
+	case "strconv.Itoa", "strconv.FormatInt", "strconv.FormatUint", "encoding/hex.EncodeToString", "fmt.Sprintf", "fmt.Sprint":
+	default:
+		return false
+	}
+	refs := call.Referrers()
+	if refs == nil || len(*refs) == 0 {
+		return false
+	}
+	for _, r := range *refs {
+		mi, ok := r.(*ssa.MakeInterface)
+		if !ok {
+			return false
+		}
+		mrefs := mi.Referrers()
+		if mrefs == nil || len(*mrefs) == 0 {
+			return false
+		}
+		for _, mr := range *mrefs {
+			st, ok := mr.(*ssa.Store)
+			if !ok || st.Val != mi {
+				return false
+			}
+			ia, ok := st.Addr.(*ssa.IndexAddr)
+			if !ok {
+				return false
+			}
+			al, ok := ia.X.(*ssa.Alloc)
+			if !ok {
+				return false
+			}
+			for _, ar := range *al.Referrers() {
+				switch x := ar.(type) {
+				case *ssa.IndexAddr:
+				case *ssa.Slice:
+					for _, sr := range *x.Referrers() {
+						c, ok := sr.(*ssa.Call)
+						if !ok {
+							return false
+						}
+						f := c.Call.StaticCallee()
+						if f == nil || !isLogFunc(f.String()) {
+							return false
+						}
+					}
+				default:
+					return false
+				}
+			}
+		}
+	}
+	return true
+}
+
+func isLogFunc(name string) bool {
+	return len(name) > 0 && (hasPrefix(name, "(*github.com/sirupsen/logrus.") || hasPrefix(name, "log.Print") || hasPrefix(name, "github.com/sirupsen/logrus."))
+}
+
+func hasPrefix(s, p string) bool { return len(s) >= len(p) && s[:len(p)] == p }
